@@ -68,17 +68,30 @@ def _lzma2_prop(dict_size: int) -> int:
     return 40
 
 
+def lzma2_dict(prop: int) -> int:
+    """dictionary size an LZMA2 property byte stands for (xz file format / 7-Zip Lzma2Dec.c): 40 = 4 GiB - 1"""
+    return 0xFFFFFFFF if prop == 40 else (2 | (prop & 1)) << (prop // 2 + 11)
+
+
+def coder_base(coder: str) -> str:
+    return coder.split(":")[0]
+
+
 def encode(coder: str, data: bytes):
-    """-> (coder id, properties or None, packed bytes)"""
-    if coder == "copy":
+    """-> (coder id, properties or None, packed bytes).
+    coder: "copy" | "lzma" | "lzma2" | "lzma2:<property byte 0..39>" (the encoder uses exactly the dictionary the byte
+    stands for, as 7-Zip does when it shrinks the dictionary to the data) | "lzma:<lc>:<lp>:<pb>:<dictionary size>"."""
+    base, *par = coder.split(":")
+    if base == "copy":
         return ID_COPY, None, data
-    if coder == "lzma":
-        flt = {"id": lzma.FILTER_LZMA1, "dict_size": 1 << 16, "lc": 3, "lp": 0, "pb": 2}
-        return ID_LZMA, _lzma1_props(), lzma.compress(data, format=lzma.FORMAT_RAW, filters=[flt])
-    if coder == "lzma2":
-        ds = 1 << 16
-        flt = {"id": lzma.FILTER_LZMA2, "dict_size": ds}
-        return ID_LZMA2, bytes([_lzma2_prop(ds)]), lzma.compress(data, format=lzma.FORMAT_RAW, filters=[flt])
+    if base == "lzma":
+        lc, lp, pb, ds = (int(x) for x in par) if par else (3, 0, 2, 1 << 16)
+        flt = {"id": lzma.FILTER_LZMA1, "dict_size": ds, "lc": lc, "lp": lp, "pb": pb}
+        return ID_LZMA, _lzma1_props(lc, lp, pb, ds), lzma.compress(data, format=lzma.FORMAT_RAW, filters=[flt])
+    if base == "lzma2":
+        prop = int(par[0]) if par else _lzma2_prop(1 << 16)
+        flt = {"id": lzma.FILTER_LZMA2, "dict_size": lzma2_dict(prop)}
+        return ID_LZMA2, bytes([prop]), lzma.compress(data, format=lzma.FORMAT_RAW, filters=[flt])
     raise ValueError(coder)
 
 
